@@ -13,7 +13,7 @@ class Adapter:
     module = None      # TLA+ module in spec/env
     has_checker = True
     has_truth = True   # the module defines the Truth interface (Actions/PrefixOK/Complete/Pointless)
-    solo_invariants = ("FamilyOK", "C01", "C02a", "C02c", "C03", "PadStays", "Emit")
+    solo_invariants = ("FamilyOK", "C01", "C02a", "C02c", "C03", "PadStays", "PadReward", "Emit")
     properties = ("C01", "C02", "C03", "C04", "C05", "C06")
     multistart = False  # env supports select_start_nodes (C12)
     pad_steps = 2      # 0 for fixed-length envs (all rows of a batch finish together)
